@@ -38,14 +38,64 @@ pub struct RunStats {
 #[derive(Default)]
 pub struct Shadow {
     pub enabled: bool,
-    stack: Vec<(usize, usize, Vec<usize>)>,
-    cut_enter: Option<Vec<usize>>,
+    n_saves: usize,
+    m_saves: Vec<usize>,
+    m_explicit: Vec<usize>,
+    m_stack: Vec<(usize, usize, Vec<usize>, Vec<usize>)>,
+    scope: usize,
+    pub history: String,
+    pub history_ops: usize,
     pub ops: u64,
     pub pushes: u64,
     pub pops: u64,
     pub cuts: u64,
+    pub saves: u64,
     pub max_depth: usize,
     pub violations: Vec<String>,
+}
+
+pub const HISTORY_CAP: usize = 4000;
+
+impl Shadow {
+    pub fn n_saves_pub(&self) -> usize {
+        self.n_saves
+    }
+    fn rec(&mut self, op: String) {
+        self.history_ops += 1;
+        if self.history_ops <= HISTORY_CAP {
+            if !self.history.is_empty() {
+                self.history.push(';');
+            }
+            self.history.push_str(&op);
+        }
+    }
+    /// compare the real state with the whole-state-copy model
+    fn compare(&mut self, what: &str, saves: &Vec<usize>, depth: usize) {
+        let n = self.n_saves;
+        if saves.len() < n || saves[..n] != self.m_saves[..] {
+            let m = std::format!("{}: slots {:?} but whole-state-copy model has {:?}", what, &saves[..n.min(saves.len())], self.m_saves);
+            self.violations.push(m);
+        }
+        // explicit stack: saves[n] is the stack pointer, entries are saves[n+1..sp]
+        let real: Vec<usize> = if saves.len() > n {
+            let sp = saves[n];
+            if sp >= n + 1 && sp <= saves.len() {
+                saves[n + 1..sp].to_vec()
+            } else {
+                vec![usize::MAX - 1]
+            }
+        } else {
+            Vec::new()
+        };
+        if real != self.m_explicit {
+            let m = std::format!("{}: auxiliary stack {:?} but model has {:?}", what, real, self.m_explicit);
+            self.violations.push(m);
+        }
+        if depth != self.m_stack.len() {
+            let m = std::format!("{}: {} alternatives but model has {}", what, depth, self.m_stack.len());
+            self.violations.push(m);
+        }
+    }
 }
 
 thread_local! {
@@ -55,6 +105,7 @@ thread_local! {
     static DELEGATE_LOG: RefCell<Vec<(String, SyntaxConfig)>> = RefCell::new(Vec::new());
     static DELEGATES: RefCell<HashMap<usize, Rc<HProg>>> = RefCell::new(HashMap::new());
     static SESSION: RefCell<Option<(*const SymByte, usize)>> = RefCell::new(None);
+    static SESSION_WRAP: RefCell<Option<Rc<HProg>>> = RefCell::new(None);
     static IN_SESSION_RUN: RefCell<bool> = RefCell::new(false);
     pub static SHADOW: RefCell<Shadow> = RefCell::new(Shadow::default());
 }
@@ -64,12 +115,20 @@ pub const STEP_CAP_PANIC: &str = "SYMX-VM-STEP-CAP";
 pub struct RunGuard;
 
 impl RunGuard {
-    pub fn enter() -> RunGuard {
+    pub fn enter(n_saves: usize) -> RunGuard {
         RUN.with(|r| *r.borrow_mut() = RunStats::default());
         SHADOW.with(|s| {
             let mut s = s.borrow_mut();
-            s.stack.clear();
-            s.cut_enter = None;
+            if s.enabled {
+                s.n_saves = n_saves;
+                s.m_saves = vec![usize::MAX; n_saves];
+                s.m_explicit.clear();
+                s.m_stack.clear();
+                s.scope = 0;
+                s.history.clear();
+                s.history_ops = 0;
+                s.violations.clear();
+            }
         });
         RunGuard
     }
@@ -153,14 +212,69 @@ pub(crate) fn intercept(
 
 pub struct SessionGuard;
 
-pub fn install_session(t: &SymStr) -> SessionGuard {
+/// Redirect every search the real `lib.rs` wrappers make (on a concrete placeholder text
+/// of the same UTF-8 layout) to the symbolic text `t`.
+pub fn install_session(t: &SymStr, wrap: Option<Rc<HProg>>) -> SessionGuard {
     SESSION.with(|s| *s.borrow_mut() = Some((t.raw().as_ptr(), t.raw().len())));
+    SESSION_WRAP.with(|s| *s.borrow_mut() = wrap);
     SessionGuard
+}
+
+fn session_text<'a>() -> Option<&'a SymStr> {
+    let (ptr, n) = SESSION.with(|s| *s.borrow())?;
+    // SAFETY: the session owner keeps the byte vector alive while installed
+    let bytes = unsafe { core::slice::from_raw_parts(ptr, n) };
+    Some(SymStr::new(bytes))
+}
+
+fn wrap_model(text_len: usize) -> Option<(&'static SymStr, Rc<HProg>)> {
+    let t = session_text()?;
+    if t.raw().len() != text_len {
+        panic!("SYMX-SESSION-LENGTH-MISMATCH");
+    }
+    let w = SESSION_WRAP.with(|s| s.borrow().clone()).expect("SYMX: session without wrap model");
+    Some((t, w))
+}
+
+pub(crate) fn wrap_search(inner: &regex_automata::meta::Regex, text: &str, pos: usize) -> Option<(usize, usize)> {
+    match wrap_model(text.len()) {
+        Some((t, w)) => hirmodel::search(&w, t, pos).map(|c| (c[0].unwrap(), c[1].unwrap())),
+        None => inner.search(&RaInput::new(text).span(pos..text.len())).map(|m| (m.start(), m.end())),
+    }
+}
+
+pub(crate) fn wrap_is_match(inner: &regex_automata::meta::Regex, text: &str) -> bool {
+    match wrap_model(text.len()) {
+        Some((t, w)) => hirmodel::search(&w, t, 0).is_some(),
+        None => inner.is_match(text),
+    }
+}
+
+pub(crate) fn wrap_captures(
+    inner: &regex_automata::meta::Regex,
+    text: &str,
+    pos: usize,
+    locations: &mut regex_automata::util::captures::Captures,
+) {
+    match wrap_model(text.len()) {
+        Some((t, w)) => match hirmodel::search(&w, t, pos) {
+            Some(c) => {
+                locations.set_pattern(Some(regex_automata::PatternID::ZERO));
+                let slots = locations.slots_mut();
+                for (i, s) in slots.iter_mut().enumerate() {
+                    *s = c.get(i).cloned().flatten().and_then(regex_automata::util::primitives::NonMaxUsize::new);
+                }
+            }
+            None => locations.set_pattern(None),
+        },
+        None => inner.captures(RaInput::new(text).span(pos..text.len()), locations),
+    }
 }
 
 impl Drop for SessionGuard {
     fn drop(&mut self) {
         SESSION.with(|s| *s.borrow_mut() = None);
+        SESSION_WRAP.with(|s| *s.borrow_mut() = None);
         IN_SESSION_RUN.with(|f| *f.borrow_mut() = false);
     }
 }
@@ -171,6 +285,80 @@ pub fn session_active() -> bool {
 
 // ---- shadow whole-state-copy model of the backtracking state (C20) --------
 
+pub struct OpScope;
+
+impl OpScope {
+    pub fn enter() -> OpScope {
+        SHADOW.with(|s| s.borrow_mut().scope += 1);
+        OpScope
+    }
+}
+
+impl Drop for OpScope {
+    fn drop(&mut self) {
+        SHADOW.with(|s| {
+            let mut s = s.borrow_mut();
+            if s.scope > 0 {
+                s.scope -= 1;
+            }
+        });
+    }
+}
+
+pub fn shadow_reset(enabled: bool) {
+    SHADOW.with(|s| {
+        let mut s = s.borrow_mut();
+        *s = Shadow::default();
+        s.enabled = enabled;
+    });
+}
+
+pub fn shadow_save(slot: usize, val: usize) {
+    SHADOW.with(|s| {
+        let mut s = s.borrow_mut();
+        if !s.enabled || s.scope > 0 {
+            return;
+        }
+        s.ops += 1;
+        s.saves += 1;
+        if slot < s.n_saves {
+            s.m_saves[slot] = val;
+        } else {
+            let m = std::format!("save: slot {} outside the {} slots of the program", slot, s.n_saves);
+            s.violations.push(m);
+        }
+        s.rec(std::format!("S{},{}", slot, val));
+    });
+}
+
+pub fn shadow_stack_pushed(v: usize) {
+    SHADOW.with(|s| {
+        let mut s = s.borrow_mut();
+        if !s.enabled {
+            return;
+        }
+        s.ops += 1;
+        s.m_explicit.push(v);
+        s.rec(std::format!("K{}", v));
+    });
+}
+
+pub fn shadow_stack_popped(r: usize) {
+    SHADOW.with(|s| {
+        let mut s = s.borrow_mut();
+        if !s.enabled {
+            return;
+        }
+        s.ops += 1;
+        let e = s.m_explicit.pop();
+        if e != Some(r) {
+            let m = std::format!("auxiliary pop returned {} but the model has {:?}", r, e);
+            s.violations.push(m);
+        }
+        s.rec("L".to_string());
+    });
+}
+
 pub fn shadow_push(pc: usize, ix: usize, saves: &Vec<usize>, depth: usize) {
     SHADOW.with(|s| {
         let mut s = s.borrow_mut();
@@ -179,14 +367,13 @@ pub fn shadow_push(pc: usize, ix: usize, saves: &Vec<usize>, depth: usize) {
         }
         s.ops += 1;
         s.pushes += 1;
-        s.stack.push((pc, ix, saves.clone()));
-        if s.stack.len() > s.max_depth {
-            s.max_depth = s.stack.len();
+        let snap = (pc, ix, s.m_saves.clone(), s.m_explicit.clone());
+        s.m_stack.push(snap);
+        if s.m_stack.len() > s.max_depth {
+            s.max_depth = s.m_stack.len();
         }
-        if depth != s.stack.len() {
-            let m = std::format!("push: depth {} but model depth {}", depth, s.stack.len());
-            s.violations.push(m);
-        }
+        s.rec(std::format!("P{},{}", pc, ix));
+        s.compare("create alternative", saves, depth);
     });
 }
 
@@ -198,35 +385,23 @@ pub fn shadow_pop(pc: usize, ix: usize, saves: &Vec<usize>, depth: usize) {
         }
         s.ops += 1;
         s.pops += 1;
-        match s.stack.pop() {
-            None => s.violations.push("pop: model stack empty".to_string()),
-            Some((ppc, pix, psaves)) => {
+        s.rec("Q".to_string());
+        match s.m_stack.pop() {
+            None => s.violations.push("abandon: no alternative left in the model".to_string()),
+            Some((ppc, pix, ms, me)) => {
                 if ppc != pc || pix != ix {
-                    s.violations.push(std::format!("pop: returned ({},{}) but alternative was created as ({},{})", pc, ix, ppc, pix));
+                    let m = std::format!("abandon: resumed at ({},{}) but the alternative was created as ({},{})", pc, ix, ppc, pix);
+                    s.violations.push(m);
                 }
-                if saves.len() < psaves.len() || saves[..psaves.len()] != psaves[..] {
-                    s.violations.push(std::format!("pop: state {:?} differs from state at creation {:?}", saves, psaves));
-                }
+                s.m_saves = ms;
+                s.m_explicit = me;
             }
         }
-        if depth != s.stack.len() {
-            let m = std::format!("pop: depth {} but model depth {}", depth, s.stack.len());
-            s.violations.push(m);
-        }
+        s.compare("abandon alternative", saves, depth);
     });
 }
 
-pub fn shadow_cut_enter(saves: &Vec<usize>) {
-    SHADOW.with(|s| {
-        let mut s = s.borrow_mut();
-        if !s.enabled {
-            return;
-        }
-        s.cut_enter = Some(saves.clone());
-    });
-}
-
-pub fn shadow_cut(count: usize, saves: &Vec<usize>, depth: usize) {
+pub fn shadow_cut_enter(count: usize) {
     SHADOW.with(|s| {
         let mut s = s.borrow_mut();
         if !s.enabled {
@@ -234,20 +409,22 @@ pub fn shadow_cut(count: usize, saves: &Vec<usize>, depth: usize) {
         }
         s.ops += 1;
         s.cuts += 1;
-        if count > s.stack.len() {
-            let m = std::format!("cut: to {} but model depth {}", count, s.stack.len());
+        s.rec(std::format!("C{}", count));
+        if count > s.m_stack.len() {
+            let m = std::format!("commit: to {} alternatives but the model has {}", count, s.m_stack.len());
             s.violations.push(m);
         }
-        s.stack.truncate(count);
-        if let Some(before) = s.cut_enter.take() {
-            if &before != saves {
-                s.violations.push(std::format!("cut: current state changed from {:?} to {:?}", before, saves));
-            }
+        s.m_stack.truncate(count);
+    });
+}
+
+pub fn shadow_cut(_count: usize, saves: &Vec<usize>, depth: usize) {
+    SHADOW.with(|s| {
+        let mut s = s.borrow_mut();
+        if !s.enabled {
+            return;
         }
-        if depth != s.stack.len() {
-            let m = std::format!("cut: depth {} but model depth {}", depth, s.stack.len());
-            s.violations.push(m);
-        }
+        s.compare("commit atomic", saves, depth);
     });
 }
 
